@@ -110,6 +110,34 @@ func idExactnessRule(c *Ctx) {
 			}
 		}
 	}
+	// everything that is not an integer literal is decoded by the JSON decoder: an id leaves DecodeID as Int64ID of the
+	// parsed integer, as MakeID of the Unmarshal-ed value, or as the zero ID (empty input / error) — never as a slice of
+	// the raw text (a string id with an escape in it, "a\"b" or "\u00e9", would then differ from what every other
+	// decoder makes of it, and the response no longer matches the request)
+	for i, r := range d.Returns() {
+		okForm := false
+		switch len(r.Results) {
+		case 1:
+			if ce, ok := ast.Unparen(r.Results[0]).(*ast.CallExpr); ok && d.Callee(ce) == makeID && len(ce.Args) == 1 {
+				// the argument was filled by Unmarshal(raw, &v)
+				for _, uc := range d.AllCalls(d.Body, false) {
+					if fn := d.Callee(uc); fn != nil && fn.Name() == "Unmarshal" && len(uc.Args) == 2 {
+						if u, isU := ast.Unparen(uc.Args[1]).(*ast.UnaryExpr); isU && u.Op == token.AND && d.ObjOf(u.X) == d.ObjOf(ce.Args[0]) && d.ObjOf(u.X) != nil {
+							okForm = true
+						}
+					}
+				}
+			}
+		case 2:
+			switch x := ast.Unparen(r.Results[0]).(type) {
+			case *ast.CompositeLit:
+				okForm = len(x.Elts) == 0
+			case *ast.CallExpr:
+				okForm = d.Callee(x) != nil && d.Callee(x).Name() == "Int64ID"
+			}
+		}
+		c.Check(okForm, "DecodeID:decoded-by-the-decoder#"+itoa(i), d, r, "DecodeID returns Int64ID(parsed), MakeID(unmarshalled value) or the zero ID (got %s)", exprStr(r.Results[0]))
+	}
 	c.Check(okExact, "DecodeID:exact-integer-path", d, nil, "an id in integer syntax is parsed with strconv.ParseInt(raw, 10, 64) and wrapped by Int64ID without passing through float64")
 	// DecodeMessage uses DecodeID on the raw member
 	dm := c.Fn(pJ, "", "DecodeMessage")
